@@ -48,7 +48,7 @@ SPEC = {
     "translators": [translate_hash_uses],
     "tiers": {
         "quick": {"cases": 32, "extra": {"children": 4, "cycles": 10}},
-        "thorough": {"cases": 1000, "extra": {"children": 5, "cycles": 16}},
+        "thorough": {"cases": 800, "extra": {"children": 5, "cycles": 16}},
     },
     "timeout": 7200,
     # The compared observables are the container bytes and the per-cycle dumps (variables, outputs,
